@@ -104,6 +104,9 @@ NODE_NAMES = ('a', 'b', 'c')      # def nodes (source generated per name)
 ALL_NODES = NODE_NAMES + ('l',)     # + a lambda node (converted through with_function_scope)
 FEATSETS = [(), ('EQUALITY_OPERATORS',), ('BUILTIN_FUNCTIONS', 'LISTS'),
             ('ASSERT_STATEMENTS', 'EQUALITY_OPERATORS', 'BUILTIN_FUNCTIONS', 'LISTS')]
+# feature sets this fork rejects when the converted function is entered
+# ("name scopes are not supported"): the call fails, the status must survive
+REJECTED_FEATSETS = [('NAME_SCOPES',), ('AUTO_CONTROL_DEPS', 'EQUALITY_OPERATORS')]
 STATUSES = ('UNSPECIFIED', 'ENABLED', 'DISABLED')
 
 Z = {}      # zygote state
@@ -144,6 +147,10 @@ def _gen_link(rng, prefix, budget, depth, max_depth, root, n_shared):
   if kind in ('convert', 'to_graph'):
     link['rec'] = rng.random() < 0.7
     link['feats'] = rng.randrange(len(FEATSETS))
+    if rng.random() < 0.08:
+      link['feats'] = 100 + rng.randrange(len(REJECTED_FEATSETS))
+  if kind in ('convert', 'internal', 'dnc', 'unspec') and rng.random() < 0.15:
+    link['as_partial'] = True      # the wrapped callable is a functools.partial of the node function
   if kind == 'convert':
     link['ur'] = rng.random() < 0.65
   if kind == 'with':
@@ -516,6 +523,11 @@ class Harness(object):
         raise
       st.trace.append('!%s' % link['spec']['id'])
       self.stats['exc_crossings'] += 1
+      if link.get('feats', 0) >= 100 and isinstance(e, AssertionError) and 'not supported' in str(e):
+        # the documented rejection of an unsupported feature: nothing ran, the status must be restored
+        self.stats['rejected_feature_calls'] = self.stats.get('rejected_feature_calls', 0) + 1
+        self._restore(st, link, 'raise')
+        return
       if not self.ours(e):
         self.viol('S5', 'foreign exception %s crossed the boundary of %s child %s: %s'
                   % (type(e).__name__, link['kind'], link['spec']['id'], str(e)[:120]),
@@ -552,6 +564,9 @@ class Harness(object):
     kind = link['kind']
     fn = self.nodes[link['fn']]
     spec = link['spec']
+    if link.get('as_partial'):
+      import functools
+      fn = functools.partial(functools.partial(fn))
     if kind in ('native', 'plain', 'plain_try'):
       return fn(spec)      # (plain kinds reach here only below a lambda node)
     if kind == 'convert':
@@ -650,6 +665,9 @@ class Harness(object):
 
 
 def _feats(malt, idx):
+  if idx >= 100:
+    names = REJECTED_FEATSETS[(idx - 100) % len(REJECTED_FEATSETS)]
+    return tuple(getattr(malt.experimental.Feature, n) for n in names)
   names = FEATSETS[idx % len(FEATSETS)]
   if not names:
     return None
